@@ -27,6 +27,9 @@ pub fn serialize(
 pub fn deserialize(data: Bytes) -> Result<RtmpMessage, MessageDeserializationError> {
     let mut cursor = Cursor::new(data);
     let mut arguments = rml_amf0::deserialize(&mut cursor)?;
+    if arguments.len() < 3 {
+        return Err(MessageDeserializationError::InvalidMessageFormat);
+    }
 
     let command_name: String;
     let transaction_id: f64;
